@@ -4,6 +4,7 @@ mod c12;
 mod c13;
 mod c14;
 mod c15;
+mod c17;
 mod c18;
 mod c20;
 mod container;
@@ -40,6 +41,7 @@ fn main() {
 		("record", "CONTAINER") => container::record(&args[3], &args[4], seed, thorough, &args[5]),
 		("replay", "C15") => c15::replay(&args[3], &args[4]),
 		("record", "C15") => c15::record(&args[3], seed, thorough),
+		("replay", "C17") => c17::replay(&args[3], &args[4], &args[5]),
 		("replay", "C18") => c18::replay(&args[3], &args[4]),
 		("replay", "C20") => c20::replay(&args[3], &args[4]),
 		("record", "C20") => c20::record(&args[3], seed, thorough),
